@@ -228,11 +228,21 @@ def run_ops(rng, inst, thorough):
         rens.append({names[0]: names[-1]})
         if len(names) >= 3:
             rens.append({names[0]: names[1], names[1]: names[2]})
+        # simultaneous renamings (a key that is also a value: swaps, chains,
+        # cycles) first, so that they survive the truncation below
+        rens.sort(key=lambda r: 0 if set(r) & set(r.values()) and len(r) > 1
+                  else 1)
+        if len(names) >= 3:
+            tri = [n for n in names
+                   if inst.ctx.vars[n].get('dom') == inst.ctx.vars[names[0]].get('dom')
+                   and inst.ctx.vars[n]['type'] == inst.ctx.vars[names[0]]['type']]
+            if len(tri) >= 3:
+                rens.insert(0, {tri[0]: tri[1], tri[1]: tri[2], tri[2]: tri[0]})
         seen = []
         for ren in rens:
             if ren not in seen:
                 seen.append(ren)
-        for ren in seen[:lim]:
+        for ren in seen[:max(lim, 3)]:
             rec('let_vars', name, [[k, v] for k, v in ren.items()],
                 call(ctx.let, dict(ren), u))
     # assign_from
